@@ -1,8 +1,8 @@
 #!/usr/bin/env python3
 """Fail-closed translator: literals of /repo's current sources -> coq/gen/Consts_here.v.
 
-Every pattern must match exactly once in the file it is looked for, otherwise the run stops with
-FAIL-CLOSED (a broken obligation of every property).  Only stdlib `ast` is used."""
+Every pattern must match exactly once in the file it is looked for; a literal that cannot be read is reported FAIL-CLOSED for
+that field (gen/consts_status.json): a broken obligation of every property whose model closure or harness mentions the field.  Only stdlib `ast` is used."""
 import ast, os, sys, json
 from fractions import Fraction
 
@@ -48,130 +48,227 @@ def num(node, what):
     raise FailClosed(f"{what}: not a numeric literal: {ast.unparse(node)}")
 
 
-def extract():
-    out = {}
-    # 1. Profile.__init__ defaults
-    t = tree("profile.py")
-    cls = [n for n in t.body if isinstance(n, ast.ClassDef) and n.name == "Profile"]
-    if len(cls) != 1:
-        raise FailClosed("class Profile")
-    init = [n for n in cls[0].body if isinstance(n, ast.FunctionDef) and n.name == "__init__"]
-    if len(init) != 1:
-        raise FailClosed("Profile.__init__")
-    defaults = []
-    argnames = {a.arg for a in init[0].args.args}
-    for st in init[0].body:
-        if (isinstance(st, ast.Assign) and len(st.targets) == 1 and isinstance(st.targets[0], ast.Attribute)
-                and is_name(st.targets[0].value, "self")):
-            name = st.targets[0].attr
-            v = st.value
-            if isinstance(v, ast.Name) and v.id in argnames:
-                defaults.append((name, ("arg", None)))
-                continue
-            try:
-                lit = ast.literal_eval(v)
-            except Exception:
-                raise FailClosed(f"Profile default {name} is not a literal: {ast.unparse(v)}")
-            if isinstance(lit, bool):
-                defaults.append((name, ("bool", lit)))
-            elif isinstance(lit, int):
-                defaults.append((name, ("int", lit)))
-            elif isinstance(lit, float):
-                defaults.append((name, ("float", num(v, name))))
-            elif isinstance(lit, str):
-                defaults.append((name, ("str", lit)))
-            elif lit is None:
-                defaults.append((name, ("none", None)))
-            else:
-                raise FailClosed(f"Profile default {name}: unsupported literal {lit!r}")
-    names = [n for n, _ in defaults]
-    if len(set(names)) != len(names):
-        raise FailClosed("Profile.__init__ assigns an attribute twice")
-    out["params"] = defaults
-    # 2. module constants
-    out["solver_precision"] = num(modconst("lpinterface.py", "SOLVER_PRECISON"), "SOLVER_PRECISON")
-    out["solution_precision"] = num(modconst("common.py", "SOLUTION_PRECISION"), "SOLUTION_PRECISION")
-    # 3. inline literals
-    n = find("genotype.py", lambda n: isinstance(n, ast.Assign) and any(is_name(x, "SLACK") for x in n.targets), "SLACK")
-    out["slack"] = num(n.value, "SLACK")
+def _steps():
+    """one function per literal (or group of literals read from one site); each fills its keys of `out`"""
+    steps = []
 
-    def novel_unit(n):
-        return (isinstance(n, ast.AugAssign) and is_name(n.target, "objective") and isinstance(n.value, ast.BinOp)
-                and isinstance(n.value.op, ast.Mult) and isinstance(n.value.left, ast.Constant)
-                and isinstance(n.value.right, ast.Call) and ast.unparse(n.value.right.func) == "model.quicksum")
-    n = find("major.py", novel_unit, "major novelty unit")
-    out["major_novel_unit"] = num(n.value.left, "major novelty unit")
-    n = find("cn.py", lambda n: isinstance(n, ast.Assign) and any(is_name(x, "PARSIMONY_PENALTY") for x in n.targets), "parsimony")
-    if not (isinstance(n.value, ast.BinOp) and isinstance(n.value.op, ast.Div)
-            and ast.unparse(n.value.right) == "len(gene.unique_regions)"):
-        raise FailClosed("parsimony penalty shape changed: " + ast.unparse(n))
-    out["cn_pars_num"] = num(n.value.left, "parsimony numerator")
-    n = find("cn.py", lambda n: isinstance(n, ast.AugAssign) and is_name(n.target, "PARSIMONY_PENALTY")
-             and isinstance(n.op, ast.Mult) and isinstance(n.value, ast.Constant), "parsimony factor")
-    out["cn_pars_factor"] = num(n.value, "parsimony factor")
-    n = find("minor.py", lambda n: isinstance(n, ast.BinOp) and isinstance(n.op, ast.Div) and is_name(n.left, "cnt")
-             and isinstance(n.right, ast.Constant), "tie-breaker")
-    out["minor_tie_den"] = num(n.right, "tie-breaker")
-    n = find("minor.py", lambda n: isinstance(n, ast.BinOp) and isinstance(n.op, ast.Mult) and is_name(n.right, "vo")
-             and isinstance(n.left, ast.BinOp) and isinstance(n.left.op, ast.Div)
-             and ast.unparse(n.left.left) == "coverage.profile.minor_add", "VNEWOR penalty")
-    out["minor_vnewor_div"] = num(n.left.right, "VNEWOR divisor")
-    n = find("minor.py", lambda n: isinstance(n, ast.Compare) and isinstance(n.ops[0], ast.Gt)
-             and ast.unparse(n.left).startswith("abs(copies -") and isinstance(n.comparators[0], ast.Constant), "homozygous eps")
-    out["homozygous_eps"] = num(n.comparators[0], "homozygous eps")
-    fn = find("sam.py", lambda n: isinstance(n, ast.FunctionDef) and n.name == "bin_quality", "bin_quality")
-    bins, top = [], None
-    body = [st for st in fn.body if not (isinstance(st, ast.Expr) and isinstance(st.value, ast.Constant))]
-    for st in body:
-        if isinstance(st, ast.If):
-            c = st.test
-            if not (isinstance(c, ast.Compare) and is_name(c.left, "q") and len(c.ops) == 1 and isinstance(c.ops[0], ast.Lt)
-                    and len(st.body) == 1 and isinstance(st.body[0], ast.Return) and not st.orelse):
-                raise FailClosed("bin_quality shape changed")
-            bound = num(c.comparators[0], "bin bound")
-            rv = st.body[0].value
-            if ast.unparse(rv) == "int(q)":
-                val = -1
+    def f_params(out):
+        # 1. Profile.__init__ defaults
+        t = tree("profile.py")
+        cls = [n for n in t.body if isinstance(n, ast.ClassDef) and n.name == "Profile"]
+        if len(cls) != 1:
+            raise FailClosed("class Profile")
+        init = [n for n in cls[0].body if isinstance(n, ast.FunctionDef) and n.name == "__init__"]
+        if len(init) != 1:
+            raise FailClosed("Profile.__init__")
+        defaults = []
+        argnames = {a.arg for a in init[0].args.args}
+        for st in init[0].body:
+            if (isinstance(st, ast.Assign) and len(st.targets) == 1 and isinstance(st.targets[0], ast.Attribute)
+                    and is_name(st.targets[0].value, "self")):
+                name = st.targets[0].attr
+                v = st.value
+                if isinstance(v, ast.Name) and v.id in argnames:
+                    defaults.append((name, ("arg", None)))
+                    continue
+                try:
+                    lit = ast.literal_eval(v)
+                except Exception:
+                    raise FailClosed(f"Profile default {name} is not a literal: {ast.unparse(v)}")
+                if isinstance(lit, bool):
+                    defaults.append((name, ("bool", lit)))
+                elif isinstance(lit, int):
+                    defaults.append((name, ("int", lit)))
+                elif isinstance(lit, float):
+                    defaults.append((name, ("float", num(v, name))))
+                elif isinstance(lit, str):
+                    defaults.append((name, ("str", lit)))
+                elif lit is None:
+                    defaults.append((name, ("none", None)))
+                else:
+                    raise FailClosed(f"Profile default {name}: unsupported literal {lit!r}")
+        names = [n for n, _ in defaults]
+        if len(set(names)) != len(names):
+            raise FailClosed("Profile.__init__ assigns an attribute twice")
+        out["params"] = defaults
+        # 2. module constants
+    steps.append(("params", f_params))
+
+    def f_solver_precision(out):
+        out["solver_precision"] = num(modconst("lpinterface.py", "SOLVER_PRECISON"), "SOLVER_PRECISON")
+    steps.append(("solver_precision", f_solver_precision))
+
+    def f_solution_precision(out):
+        out["solution_precision"] = num(modconst("common.py", "SOLUTION_PRECISION"), "SOLUTION_PRECISION")
+        # 3. inline literals
+    steps.append(("solution_precision", f_solution_precision))
+
+    def f_slack(out):
+        n = find("genotype.py", lambda n: isinstance(n, ast.Assign) and any(is_name(x, "SLACK") for x in n.targets), "SLACK")
+        out["slack"] = num(n.value, "SLACK")
+
+    steps.append(("slack", f_slack))
+
+    def f_major_novel_unit(out):
+        def novel_unit(n):
+            return (isinstance(n, ast.AugAssign) and is_name(n.target, "objective") and isinstance(n.value, ast.BinOp)
+                    and isinstance(n.value.op, ast.Mult) and isinstance(n.value.left, ast.Constant)
+                    and isinstance(n.value.right, ast.Call) and ast.unparse(n.value.right.func) == "model.quicksum")
+        n = find("major.py", novel_unit, "major novelty unit")
+        out["major_novel_unit"] = num(n.value.left, "major novelty unit")
+    steps.append(("major_novel_unit", f_major_novel_unit))
+
+    def f_cn_pars_num(out):
+        n = find("cn.py", lambda n: isinstance(n, ast.Assign) and any(is_name(x, "PARSIMONY_PENALTY") for x in n.targets), "parsimony")
+        if not (isinstance(n.value, ast.BinOp) and isinstance(n.value.op, ast.Div)
+                and ast.unparse(n.value.right) == "len(gene.unique_regions)"):
+            raise FailClosed("parsimony penalty shape changed: " + ast.unparse(n))
+        out["cn_pars_num"] = num(n.value.left, "parsimony numerator")
+    steps.append(("cn_pars_num", f_cn_pars_num))
+
+    def f_cn_pars_factor(out):
+        n = find("cn.py", lambda n: isinstance(n, ast.AugAssign) and is_name(n.target, "PARSIMONY_PENALTY")
+                 and isinstance(n.op, ast.Mult) and isinstance(n.value, ast.Constant), "parsimony factor")
+        out["cn_pars_factor"] = num(n.value, "parsimony factor")
+    steps.append(("cn_pars_factor", f_cn_pars_factor))
+
+    def f_minor_tie_den(out):
+        n = find("minor.py", lambda n: isinstance(n, ast.BinOp) and isinstance(n.op, ast.Div) and is_name(n.left, "cnt")
+                 and isinstance(n.right, ast.Constant), "tie-breaker")
+        out["minor_tie_den"] = num(n.right, "tie-breaker")
+    steps.append(("minor_tie_den", f_minor_tie_den))
+
+    def f_minor_vnewor_div(out):
+        n = find("minor.py", lambda n: isinstance(n, ast.BinOp) and isinstance(n.op, ast.Mult) and is_name(n.right, "vo")
+                 and isinstance(n.left, ast.BinOp) and isinstance(n.left.op, ast.Div)
+                 and ast.unparse(n.left.left) == "coverage.profile.minor_add", "VNEWOR penalty")
+        out["minor_vnewor_div"] = num(n.left.right, "VNEWOR divisor")
+    steps.append(("minor_vnewor_div", f_minor_vnewor_div))
+
+    def f_homozygous_eps(out):
+        n = find("minor.py", lambda n: isinstance(n, ast.Compare) and isinstance(n.ops[0], ast.Gt)
+                 and ast.unparse(n.left).startswith("abs(copies -") and isinstance(n.comparators[0], ast.Constant), "homozygous eps")
+        out["homozygous_eps"] = num(n.comparators[0], "homozygous eps")
+    steps.append(("homozygous_eps", f_homozygous_eps))
+
+    def f_bins(out):
+        fn = find("sam.py", lambda n: isinstance(n, ast.FunctionDef) and n.name == "bin_quality", "bin_quality")
+        bins, top = [], None
+        body = [st for st in fn.body if not (isinstance(st, ast.Expr) and isinstance(st.value, ast.Constant))]
+        for st in body:
+            if isinstance(st, ast.If):
+                c = st.test
+                if not (isinstance(c, ast.Compare) and is_name(c.left, "q") and len(c.ops) == 1 and isinstance(c.ops[0], ast.Lt)
+                        and len(st.body) == 1 and isinstance(st.body[0], ast.Return) and not st.orelse):
+                    raise FailClosed("bin_quality shape changed")
+                bound = num(c.comparators[0], "bin bound")
+                rv = st.body[0].value
+                if ast.unparse(rv) == "int(q)":
+                    val = -1
+                else:
+                    val = num(rv, "bin value")
+                bins.append((int(bound), int(val)))
+            elif isinstance(st, ast.Return) and st is body[-1]:
+                top = int(num(st.value, "bin top"))
             else:
-                val = num(rv, "bin value")
-            bins.append((int(bound), int(val)))
-        elif isinstance(st, ast.Return) and st is body[-1]:
-            top = int(num(st.value, "bin top"))
-        else:
-            raise FailClosed("bin_quality shape changed")
-    if top is None:
-        raise FailClosed("bin_quality has no final return")
-    out["bins"], out["bin_top"] = bins, top
-    hits = [n for n in ast.walk(tree("sam.py")) if isinstance(n, ast.BinOp) and isinstance(n.op, ast.Mult)
-            and isinstance(n.left, ast.List) and len(n.left.elts) == 1 and isinstance(n.left.elts[0], ast.Tuple)
-            and isinstance(n.right, ast.Constant)]
-    if not hits:
-        raise FailClosed("VCF pseudo-read literals not found")
-    qs = {ast.unparse(h.left) for h in hits}
-    if len(qs) != 1:
-        raise FailClosed(f"VCF pseudo-read qualities differ: {qs}")
-    q = ast.literal_eval(hits[0].left)[0]
-    out["vcf_reads"] = sorted({int(h.right.value) for h in hits})
-    out["vcf_read_sites"] = len(hits)
-    out["vcf_q"] = (int(q[0]), int(q[1]))
-    hits = [n for n in ast.walk(tree("genotype.py")) if isinstance(n, ast.Call) and is_name(n.func, "int") and n.args
-            and isinstance(n.args[0], ast.BinOp) and isinstance(n.args[0].op, ast.Mult) and isinstance(n.args[0].left, ast.Constant)]
-    if not hits:
-        raise FailClosed("int(1000 * score) sort keys not found")
-    out["sort_scale"] = [int(h.args[0].left.value) for h in hits]
-    fn = find("coverage.py", lambda n: isinstance(n, ast.FunctionDef) and n.name == "average_coverage", "average_coverage")
-    hits = [n for n in ast.walk(fn) if isinstance(n, ast.BinOp) and isinstance(n.op, ast.Add) and isinstance(n.right, ast.Constant)
-            and ast.unparse(n.left) == "len(self._coverage)"]
-    if len(hits) != 1:
-        raise FailClosed("average_coverage denominator changed")
-    out["avg_cov_eps"] = num(hits[0].right, "avg cov eps")
-    n = find("sam.py", lambda n: isinstance(n, ast.Assign) and ast.unparse(n.targets[0]) == "self.profile.min_avg_coverage",
-             "dump min_avg_coverage reset")
-    out["dump_min_avg"] = num(n.value, "dump min_avg")
-    n = find("sam.py", lambda n: isinstance(n, ast.Compare) and ast.unparse(n.left) == "self.coverage.diploid_avg_coverage()"
-             and isinstance(n.ops[0], ast.Lt), "neutral floor")
-    out["neutral_floor"] = num(n.comparators[0], "neutral floor")
+                raise FailClosed("bin_quality shape changed")
+        if top is None:
+            raise FailClosed("bin_quality has no final return")
+        out["bins"], out["bin_top"] = bins, top
+    steps.append(("bins", f_bins))
+
+    def f_vcf_reads(out):
+        hits = [n for n in ast.walk(tree("sam.py")) if isinstance(n, ast.BinOp) and isinstance(n.op, ast.Mult)
+                and isinstance(n.left, ast.List) and len(n.left.elts) == 1 and isinstance(n.left.elts[0], ast.Tuple)
+                and isinstance(n.right, ast.Constant)]
+        if not hits:
+            raise FailClosed("VCF pseudo-read literals not found")
+        qs = {ast.unparse(h.left) for h in hits}
+        if len(qs) != 1:
+            raise FailClosed(f"VCF pseudo-read qualities differ: {qs}")
+        q = ast.literal_eval(hits[0].left)[0]
+        out["vcf_reads"] = sorted({int(h.right.value) for h in hits})
+        out["vcf_read_sites"] = len(hits)
+        out["vcf_q"] = (int(q[0]), int(q[1]))
+    steps.append(("vcf_reads", f_vcf_reads))
+
+    def f_sort_scale(out):
+        hits = [n for n in ast.walk(tree("genotype.py")) if isinstance(n, ast.Call) and is_name(n.func, "int") and n.args
+                and isinstance(n.args[0], ast.BinOp) and isinstance(n.args[0].op, ast.Mult) and isinstance(n.args[0].left, ast.Constant)]
+        if not hits:
+            raise FailClosed("int(1000 * score) sort keys not found")
+        out["sort_scale"] = [int(h.args[0].left.value) for h in hits]
+    steps.append(("sort_scale", f_sort_scale))
+
+    def f_avg_cov_eps(out):
+        fn = find("coverage.py", lambda n: isinstance(n, ast.FunctionDef) and n.name == "average_coverage", "average_coverage")
+        hits = [n for n in ast.walk(fn) if isinstance(n, ast.BinOp) and isinstance(n.op, ast.Add) and isinstance(n.right, ast.Constant)
+                and ast.unparse(n.left) == "len(self._coverage)"]
+        if len(hits) != 1:
+            raise FailClosed("average_coverage denominator changed")
+        out["avg_cov_eps"] = num(hits[0].right, "avg cov eps")
+    steps.append(("avg_cov_eps", f_avg_cov_eps))
+
+    def f_dump_min_avg(out):
+        n = find("sam.py", lambda n: isinstance(n, ast.Assign) and ast.unparse(n.targets[0]) == "self.profile.min_avg_coverage",
+                 "dump min_avg_coverage reset")
+        out["dump_min_avg"] = num(n.value, "dump min_avg")
+    steps.append(("dump_min_avg", f_dump_min_avg))
+
+    def f_neutral_floor(out):
+        n = find("sam.py", lambda n: isinstance(n, ast.Compare) and ast.unparse(n.left) == "self.coverage.diploid_avg_coverage()"
+                 and isinstance(n.ops[0], ast.Lt), "neutral floor")
+        out["neutral_floor"] = num(n.comparators[0], "neutral floor")
+    steps.append(("neutral_floor", f_neutral_floor))
+
+    return steps
+
+
+# values of the shipped tree: used ONLY for a literal the translator can no longer read (that literal is then reported as a broken
+# obligation of every property whose model or harness mentions it; the others keep running on the literals that were read)
+FALLBACK = {
+    "avg_cov_eps": Fraction(1, 10), "bin_top": 40, "bins": [(2, -1), (10, 6), (20, 15), (29, 25), (39, 35)],
+    "cn_pars_factor": Fraction(3, 4), "cn_pars_num": Fraction(10), "dump_min_avg": Fraction(2), "homozygous_eps": Fraction(1, 100000),
+    "major_novel_unit": Fraction(1, 10), "minor_tie_den": Fraction(1000000), "minor_vnewor_div": Fraction(2), "neutral_floor": Fraction(2),
+    "slack": Fraction(1), "solution_precision": Fraction(1, 100), "solver_precision": Fraction(1, 100000), "sort_scale": [1000, 1000, 1000],
+    "vcf_q": (40, 40), "vcf_read_sites": 5, "vcf_reads": [10, 20],
+    "params": [("name", ("arg", None)), ("cn_region", ("arg", None)), ("data", ("arg", None)), ("gap", ("float", Fraction(0))),
+               ("cn_solution", ("none", None)), ("neutral_value", ("float", Fraction(0))), ("threshold", ("float", Fraction(1, 2))),
+               ("min_coverage", ("float", Fraction(2))), ("min_quality", ("int", 10)), ("min_mapq", ("int", 10)), ("phase", ("bool", True)),
+               ("sam_long_reads", ("bool", False)), ("sam_mappy_preset", ("str", "map-hifi")), ("cn_max", ("int", 20)),
+               ("cn_pce_penalty", ("float", Fraction(2))), ("cn_diff", ("float", Fraction(10))), ("cn_fit", ("float", Fraction(1))),
+               ("cn_parsimony", ("float", Fraction(1, 2))), ("cn_fusion_left", ("float", Fraction(1, 2))),
+               ("cn_fusion_right", ("float", Fraction(1, 4))), ("major_novel", ("float", Fraction(21))), ("minor_miss", ("float", Fraction(3, 2))),
+               ("minor_add", ("float", Fraction(1))), ("minor_phase", ("float", Fraction(2, 5))), ("minor_phase_vars", ("int", 3000)),
+               ("male", ("bool", False)), ("max_minor_solutions", ("int", 1)), ("display_format", ("bool", False)), ("debug_probe", ("str", "")),
+               ("debug_novel", ("bool", False)), ("min_avg_coverage", ("float", Fraction(2))), ("vcf_sample_idx", ("int", 0)),
+               ("indelpost", ("bool", True))],
+}
+
+
+def extract(strict=False):
+    """-> (dict of literals).  extract.failed maps a key to the fail-closed message of the step that should have read it."""
+    out, failed = {}, {}
+    for name, fn in _steps():
+        tmp = {}
+        try:
+            fn(tmp)
+            out.update(tmp)
+        except (FailClosed, OSError, SyntaxError, ValueError, KeyError, IndexError, AttributeError, TypeError) as e:
+            if strict:
+                raise
+            for k in STEP_KEYS[name]:
+                out[k] = FALLBACK[k]
+                failed[k] = f"{name}: {e}"
+    extract.failed = failed
     return out
+
+
+STEP_KEYS = {"params": ["params"], "solver_precision": ["solver_precision"], "solution_precision": ["solution_precision"], "slack": ["slack"],
+             "major_novel_unit": ["major_novel_unit"], "cn_pars_num": ["cn_pars_num"], "cn_pars_factor": ["cn_pars_factor"],
+             "minor_tie_den": ["minor_tie_den"], "minor_vnewor_div": ["minor_vnewor_div"], "homozygous_eps": ["homozygous_eps"],
+             "bins": ["bins", "bin_top"], "vcf_reads": ["vcf_reads", "vcf_read_sites", "vcf_q"], "sort_scale": ["sort_scale"],
+             "avg_cov_eps": ["avg_cov_eps"], "dump_min_avg": ["dump_min_avg"], "neutral_floor": ["neutral_floor"]}
 
 
 def cq(q):
@@ -233,20 +330,22 @@ Proof. vm_compute. reflexivity. Qed.
 
 def main():
     out_path = sys.argv[1] if len(sys.argv) > 1 else os.path.join(os.path.dirname(__file__), "..", "coq", "gen", "Consts_here.v")
-    try:
-        c = extract()
-    except FailClosed as e:
-        print(f"FAIL-CLOSED: {e}")
-        sys.exit(2)
+    c = extract()
     text = emit(c)
     for path, txt in ((out_path, text), (os.path.join(os.path.dirname(out_path), "Consts_wf.v"), WF)):
         old = open(path).read() if os.path.exists(path) else None
         if old != txt:
             with open(path, "w") as f:
                 f.write(txt)
+    # which literals could not be read (their fallback value is in the generated file; common.build turns each into a broken
+    # obligation of the properties whose model closure or harness mentions it)
+    with open(os.path.join(os.path.dirname(out_path), "consts_status.json"), "w") as f:
+        json.dump({"failed": extract.failed}, f, indent=1)
     js = {k: (str(v) if isinstance(v, Fraction) else v) for k, v in c.items() if k != "params"}
     js["params"] = [[n, ty, (str(v) if isinstance(v, Fraction) else v)] for n, (ty, v) in c["params"]]
     print(json.dumps(js))
+    for k, msg in extract.failed.items():
+        print(f"FAIL-CLOSED field {k}: {msg}")
 
 
 if __name__ == "__main__":
